@@ -13,6 +13,7 @@ import (
 	"os"
 	"runtime/debug"
 	"sort"
+	"strings"
 	"testing"
 
 	"github.com/wader/fq/internal/bitiox"
@@ -651,4 +652,52 @@ func TestPrograms(t *testing.T) {
 			c.Failf(f.Sig, "%s", f.Msg)
 		}
 	})
+}
+
+// TestSeeds: strict regression seed of the repaired FillGaps panic (a field
+// without bits one bit behind the end of the buffer, possible before fq commit
+// 205b5ad2 rejected seeks past the end, made Gaps return a trailing gap of
+// length -1 and decode.Decode panic): the decode must return a tree whose
+// gaps cover the buffer.  The second program is the tree-level minimal case
+// of the still listed one-bit tolerance.
+func TestSeeds(t *testing.T) {
+	if harness.E.Shard != 0 || harness.E.Replay != "" {
+		t.Skip("seeds run in shard 0")
+	}
+	u := func(name string, n int64) *treegen.Op { return &treegen.Op{K: "u", Name: name, N: n} }
+	seeds := []struct {
+		name   string
+		strict bool
+		p      *treegen.Program
+	}{
+		{"gap-panic", true, &treegen.Program{Input: "000000", NBits: 24, Fmts: [][]*treegen.Op{{u("f1", 3), {K: "seekabs_fn", Off: 25, Kids: []*treegen.Op{{K: "utf8", Name: "a"}}}, u("f2", 8), u("f3", 13)}}}},
+		{"trailing-bit-after-synthetic", false, &treegen.Program{Input: "0b", NBits: 8, Fmts: [][]*treegen.Op{{{K: "framed", N: 8, Kids: []*treegen.Op{u("f1", 7)}}, {K: "val", Name: "f2"}}}}},
+	}
+	for _, sd := range seeds {
+		res := &treegen.Result{}
+		var top *decode.Value
+		func() {
+			defer func() {
+				if r := recover(); r != nil {
+					res.Failf("regression:decode-paniced", "decode.Decode paniced: %v", r)
+				}
+			}()
+			top, _ = treegen.RunFQ(sd.p)
+		}()
+		if top != nil {
+			checkGapTree(treegen.Build(top), sd.p.Data(), res)
+		} else if len(res.Fails) == 0 {
+			res.Failf("regression:no-tree", "decode.Decode returned no tree")
+		}
+		harness.Count(harness.Hash64(sd.p), true, "src:seed")
+		for _, f := range res.Fails {
+			sig := f.Sig
+			if sd.strict && !strings.HasPrefix(sig, "regression:") {
+				sig = "regression:" + sig
+			}
+			if harness.Violate(t.Name(), sig, sd.name+": "+f.Msg, sd.p) {
+				t.Errorf("[%s] %s: %s", sig, sd.name, f.Msg)
+			}
+		}
+	}
 }
